@@ -3,7 +3,7 @@
    socket is byte for byte the independent specification encoding of Spec/FeSpec.v (header: code, version 1 plus the
    NEED_REPLY bit only, payload size; payload at the specified offsets; the specified descriptors) - or nothing at all;
    and arguments the specification rejects are rejected locally, silently. *)
-From VV Require Import Base.Bits Base.Rt Base.Val Gen.GenConsts Gen.GenLayout Gen.GenFns Model.Transport Model.Frontend
+From VV Require Import Base.Bits Base.Rt Base.Val Gen.GenConsts Gen.GenLayout Gen.GenFns Gen.GenVrfd Model.Transport Model.Frontend
      Spec.Validity Spec.ValidityDec Spec.BeSpec Spec.Gates Spec.FeSpec Proofs.C20Proofs Proofs.WireProofs.
 From Coq Require Import ZArith Lia ZifyBool ZifyNat ZifyN.
 Open Scope string_scope.
@@ -138,7 +138,7 @@ Ltac start := unfold sends_spec, spec_op, fe_op; name_tests; cbn [os_body os_cod
 Lemma tx_set_vring_fd s name a data fds regions q :
   name = "set_vring_call" \/ name = "set_vring_kick" \/ name = "set_vring_err" -> sends_spec s name a data fds regions q.
 Proof.
-  intros [-> | [-> | ->]]; start; unfold q_ok, FeSpec.arg; rewrite (N.ltb_antisym (fe_maxq s) (nth 0 a 0));
+  intros [-> | [-> | ->]]; start; unfold q_ok, FeSpec.arg, sfv_bad, sfv_payload; rewrite (N.ltb_antisym (fe_maxq s) (nth 0 a 0));
   destruct (fe_maxq s <=? nth 0 a 0) eqn:Eq; cbn [negb andb orb]; try reflexivity;
   destruct (N.ltb_spec (nth 0 a 0) 256) as [H1|H1], (N.ltb_spec 255 (nth 0 a 0)) as [H2|H2]; try lia;
   cbn [negb andb orb]; try reflexivity;
@@ -453,3 +453,9 @@ Example tx_example :
   f_sent (fe_op (fe_init 2) "set_vring_num" [1; 64] [] [] [] [])
   = [([8; 0; 0; 0; 1; 0; 0; 0; 8; 0; 0; 0; 1; 0; 0; 0; 64; 0; 0; 0], [])].
 Proof. vm_compute. reflexivity. Qed.
+
+(* the local refusal and payload of the vring-descriptor messages, REGENERATED from send_fd_for_vring *)
+Lemma sfv_bad_spec q mx : sfv_bad q mx = false <-> (q < mx /\ q <= 255).
+Proof. unfold sfv_bad. lia. Qed.
+Lemma sfv_payload_is_index q : sfv_payload q = q.
+Proof. reflexivity. Qed.
